@@ -169,6 +169,35 @@ static void check_lengths(void)
     p_socket_address_free(a4); p_socket_address_free(a6);
 }
 
+/* ---------- the any / loopback constructors (heap memory is pattern-filled by the sanitizer run-time, so a field left unassigned shows) ---------- */
+static void check_wellknown(void)
+{
+    static const int PORTS2[] = {0, 1, 80, 65535}; int f, p, w;
+    for (f = 0; f < 2; f++) for (p = 0; p < 4; p++) for (w = 0; w < 2; w++) {
+        PSocketFamily fam = f ? P_SOCKET_FAMILY_INET6 : P_SOCKET_FAMILY_INET; PSocketAddress *a; struct sockaddr_storage ss; char sg[64]; const char *wn = w ? "loopback" : "any";
+        snprintf(cur, sizeof cur, "wellknown %s %d %d", wn, f ? 6 : 4, PORTS2[p]);
+        hout_progress("sig=wellknown/%s addr_enum replay %s", wn, cur);
+        n_eval++;
+        a = w ? p_socket_address_new_loopback(fam, (puint16)PORTS2[p]) : p_socket_address_new_any(fam, (puint16)PORTS2[p]);
+        if (!a) { snprintf(sg, sizeof sg, "wellknown/%s/null", wn); viol(sg, "constructor returned NULL"); continue; }
+        n_nontrivial++;
+        snprintf(sg, sizeof sg, "wellknown/%s", wn);
+        if (p_socket_address_get_family(a) != fam || p_socket_address_get_port(a) != PORTS2[p]) viol(sg, "family / port not as requested");
+        if (w ? !p_socket_address_is_loopback(a) : !p_socket_address_is_any(a)) viol(sg, "the %s address is not classified as %s", wn, wn);
+        if (p_socket_address_get_flow_info(a) != 0 || p_socket_address_get_scope_id(a) != 0) viol(sg, "flow info %u / scope id %u of a freshly built %s address (must be 0)", p_socket_address_get_flow_info(a), p_socket_address_get_scope_id(a), wn);
+        memset(&ss, 0x5A, sizeof ss);
+        if (!p_socket_address_to_native(a, &ss, sizeof ss)) viol(sg, "to_native failed");
+        else if (f) {
+            struct sockaddr_in6 *s6 = (struct sockaddr_in6 *)&ss; struct in6_addr want = w ? (struct in6_addr)IN6ADDR_LOOPBACK_INIT : (struct in6_addr)IN6ADDR_ANY_INIT;
+            if (s6->sin6_family != AF_INET6 || ntohs(s6->sin6_port) != PORTS2[p] || memcmp(&s6->sin6_addr, &want, 16) || s6->sin6_flowinfo != 0 || s6->sin6_scope_id != 0) viol(sg, "native form differs from the platform's in6addr_%s (flow %u scope %u)", wn, s6->sin6_flowinfo, s6->sin6_scope_id);
+        } else {
+            struct sockaddr_in *s4 = (struct sockaddr_in *)&ss;
+            if (s4->sin_family != AF_INET || ntohs(s4->sin_port) != PORTS2[p] || (w ? (ntohl(s4->sin_addr.s_addr) >> 24) != 127 : s4->sin_addr.s_addr != htonl(INADDR_ANY))) viol(sg, "native IPv4 form is not the %s address", wn);
+        }
+        p_socket_address_free(a);
+    }
+}
+
 static void finish(void)
 {
     int i;
@@ -238,7 +267,7 @@ int main(int argc, char **argv)
                 for (g = 0; g < nb; g++) for (z = 0; z < (int)(sizeof ZONES / sizeof ZONES[0]); z++) { snprintf(full, sizeof full, "%s%s", bases[g], ZONES[z]); check_string(full); }
             }
         }
-    } else if (!strcmp(MODE, "lengths")) check_lengths();
+    } else if (!strcmp(MODE, "lengths")) { check_lengths(); check_wellknown(); }
     else if (!strcmp(MODE, "v4all")) {
         uint32_t shard = (uint32_t)atoi(argv[2]), ns = (uint32_t)atoi(argv[3]); uint64_t h;
         for (h = shard; h < ((uint64_t)1 << 32); h += ns) { if ((h & 0xfffff) == shard) hout_progress("sig=v4/crash addr_enum replay v4 %u 9", (unsigned)h); check_v4((uint32_t)h, (uint16_t)(h * 31), -1); }
@@ -250,6 +279,7 @@ int main(int argc, char **argv)
         else if (argc >= 7 && !strcmp(argv[2], "v6")) { unsigned char b[16]; int k; for (k = 0; k < 16; k++) { unsigned v; sscanf(argv[3] + 2 * k, "%2x", &v); b[k] = (unsigned char)v; } check_v6(b, (uint16_t)atoi(argv[4]), (uint32_t)strtoul(argv[5], NULL, 0), (uint32_t)strtoul(argv[6], NULL, 0)); }
         else if (argc >= 3 && !strcmp(argv[2], "string")) check_string(argc > 3 ? argv[3] : "");
         else if (!strcmp(argv[2], "lengths")) check_lengths();
+        else if (!strcmp(argv[2], "wellknown")) check_wellknown();
         printf("replay finished: %ld violation report(s)\n", hout_nviol);
         return hout_nviol ? 1 : 0;
     } else return 2;
